@@ -50,10 +50,10 @@ const (
 	// hint: with store hints (what real stores send) the fast-forward over unexpected
 	// documents never works; an unrequested document panics, a late/duplicate one blocks the
 	// merged stream for every other source.
-	excludeHintedUnexpected = true
+	excludeHintedUnexpected = false
 	// two sources with an unrequested document at the head of their streams at the same time
 	// reach panic("attempt to compare unknown IDSources") in the two-way merge.
-	excludeTwoForeign = true
+	excludeTwoForeign = false
 )
 
 // scripted outcome of the Search call on one host
